@@ -485,15 +485,35 @@ def observe(*a, **kw):
                 "error": "%s: %s" % (type(e).__name__, e), "trace": traceback.format_exc()[-1500:]}
 
 
-def observe_inner(binf, outdir, scn, nproc, backend, append=False, nbatch=None, ns2add=None):
+def plant_stale(outdir, scn, kind, ns2add):
+    """What a previous, different run may have left at the output location: an output file shorter /
+    as long as / longer than the one about to be written (junk bytes), and stale QC files."""
+    if kind is None:
+        return
+    dtype = np.dtype(scn.get("dtype", "int16"))
+    ncout = scn.get("nc_out") or (scn["ncv"] + 1)
+    new = (scn["ns"] + ns2add) * ncout * dtype.itemsize
+    n = {"shorter": max(1, new // 3 + 5), "equal": new, "longer": new + 7 * ncout * dtype.itemsize + 1234 * ncout * 2}[kind]
+    rng = np.random.default_rng(scn["seed"] + 99)
+    rng.integers(0, 255, n, dtype=np.uint8).tofile(outdir / "out.bin")
+    rng.standard_normal(scn["ncv"] * 977).astype(np.float32).tofile(outdir / "ap_rms.bin")
+    rng.standard_normal(977).astype(np.float32).tofile(outdir / "ap_time.bin")
+    np.save(outdir / "_iblqc_ephysSaturation.samples.npy", np.ones(scn["ns"] + 4321, dtype=bool))
+    np.save(outdir / "_iblqc_ephysTimeRmsAP.rms.npy", np.ones((977, scn["ncv"]), dtype=np.float32))
+    np.save(outdir / "_iblqc_ephysTimeRmsAP.timestamps.npy", np.ones(977, dtype=np.float32))
+
+
+def observe_inner(binf, outdir, scn, nproc, backend, append=False, nbatch=None, ns2add=None, stale=None):
     """One real run.  Returns dict with bytes / QC / (threading backend only) per-worker events."""
     outdir.mkdir(parents=True, exist_ok=True)
+    if not append:
+        plant_stale(outdir, scn, stale, scn["ns2add"] if ns2add is None else ns2add)
     fp0 = fingerprint(binf)
     outf = outdir / "out.bin"
     watched = {outf: "out", outdir / "ap_rms.bin": "rms", outdir / "ap_time.bin": "time",
                outdir / "_iblqc_ephysSaturation.samples.npy": "sat"}
     pre = {k: (Path(p).stat().st_size if Path(p).exists() else 0) for p, k in watched.items() if k != "sat"}
-    res = {"P": nproc, "backend": backend, "append": append, "pre": pre}
+    res = {"P": nproc, "backend": backend, "append": append, "pre": pre, "stale": stale}
     t0 = time.time()
     try:
         if backend == "threading":
@@ -726,8 +746,9 @@ def rows_close(a, b, ncv):
 # --------------------------------------------------------------------------
 # flat encodings (same layout as coq/C06/Run.v `run`)
 # --------------------------------------------------------------------------
-def enc_input(ns, nb, nproc, ns2add, offset, ncout, nbytes, ncv, roff, toff):
-    return [ns, nb, nproc, ns2add, offset, ncout, nbytes, ncv, roff, toff]
+def enc_input(ns, nb, nproc, ns2add, append, pre_len, ncout, nbytes, ncv, roff, toff):
+    """pre_len: bytes of whatever file was at output_file before the call (the model derives the offset)."""
+    return [ns, nb, nproc, ns2add, 1 if append else 0, pre_len, ncout, nbytes, ncv, roff, toff]
 
 
 def locate(full, rows, guess, ncv):
@@ -942,7 +963,8 @@ def check_run(ctx, scn, obs, data, ref, ref_prev, tags_base, cases, stats, nbatc
     ncout = scn["nc_out"] or (ncv + 1)
     dtype = np.dtype(scn.get("dtype", "int16"))
     rowbytes = ncout * dtype.itemsize
-    inp = dict(scn_public(scn), P=obs["P"], backend=obs["backend"], append_run=obs["append"], nbatch_run=nbatch)
+    inp = dict(scn_public(scn), P=obs["P"], backend=obs["backend"], append_run=obs["append"], nbatch_run=nbatch,
+               stale=obs.get("stale"), pre_existing_bytes=obs["pre"].get("out"))
     tags = dict(tags_base, P=obs["P"], backend=obs["backend"], append=bool(obs["append"]),
                 workers_gt_samples=bool(obs["P"] > ns))
 
@@ -1056,7 +1078,8 @@ def check_run(ctx, scn, obs, data, ref, ref_prev, tags_base, cases, stats, nbatc
         roff = obs["pre"]["rms"] if obs["append"] else 0
         toff = obs["pre"]["time"] if obs["append"] else 0
         probes = pick_probes(ref, ns)
-        ci = enc_input(ns, nbatch, obs["P"], ns2add, offset, ncout, dtype.itemsize, ncv, roff, toff) + probes
+        ci = enc_input(ns, nbatch, obs["P"], ns2add, bool(obs["append"]), obs["pre"]["out"], ncout, dtype.itemsize,
+                       ncv, roff, toff) + probes
         co = enc_impl(obs, ref, rows, offset, rowbytes, ncv, obs["P"], probes)
         cases.append((ci, co, inp))
     return rows
@@ -1093,8 +1116,12 @@ def run_scenario(ctx, scn, cases, stats, samples):
         stats["sat_flagged_samples"] = stats.get("sat_flagged_samples", 0) + sum(int(r["sat"].sum()) for r in ref)
         first_raw = None
         runs = [(p, "threading") for p in scn["ps"]] + [(p, "loky") for p in scn["loky"]]
-        for (p, be) in runs:
-            obs = g_observe(ctx, binf, tmp / ("o_%s_%d" % (be, p)), scn, p, be)
+        kinds = [None, "longer", "shorter", "equal"]
+        k0 = scn["seed"] % 4
+        for j, (p, be) in enumerate(runs):
+            # what already exists at the output path: nothing / a longer / shorter / equally long stale file
+            obs = g_observe(ctx, binf, tmp / ("o_%s_%d" % (be, p)), scn, p, be, stale=(kinds[(k0 + j) % 4] if scn.get("stale_force", "-") == "-" else scn["stale_force"]))
+            stats["stale_" + str(obs.get("stale"))] = stats.get("stale_" + str(obs.get("stale")), 0) + 1
             stats["runs"] += 1
             stats["runs_" + be] += 1
             stats["P_hist"][p] = stats["P_hist"].get(p, 0) + 1
@@ -1171,7 +1198,7 @@ def short_stream(ctx, stats):
     todo = [(1023, 4096, 1), (1000, 2304, 3), (700, 3000, 2), (1024, 4096, 2)]
     if ctx.thorough():
         todo += [(1, 4096, 1), (512, 2100, 1), (1022, 65536, 4), (1025, 2304, 5)]
-    model = common.Extracted(PROP).run_many([enc_input(ns, nb, p, 0, 0, 9, 2, 8, 0, 0) for ns, nb, p in todo])
+    model = common.Extracted(PROP).run_many([enc_input(ns, nb, p, 0, False, 0, 9, 2, 8, 0, 0) for ns, nb, p in todo])
     for (ns, nb, p), mo in zip(todo, model):
         scn = {"ns": ns, "nbatch": nb, "ncv": 8, "ns2add": 0, "reject": False, "k_filter": False, "wrot": None,
                "nc_out": None, "dtype": "int16", "sat": False, "seed": 11 + ns, "append": None}
@@ -1346,6 +1373,7 @@ def run_inner(ctx):
     dist = {"scenarios": len(scns), "runs": stats["runs"], "runs_threading": stats["runs_threading"],
             "runs_loky_processes": stats["runs_loky"], "runs_append": stats["runs_append"],
             "short_recordings_malformed_stream": stats["short_stream"],
+            "pre_existing_output": {k[6:]: v for k, v in sorted(stats.items()) if k.startswith("stale_")},
             "float_quotient_pairs_replayed": stats.get("float_quotients", 0),
             "sync_words_replayed_with_numpy": stats.get("sync_sweep", 0),
             "idle_workers_seen": stats["idle_workers"], "batches_processed_twice": stats["twice_processed_batches"],
@@ -1392,6 +1420,8 @@ def replay_inner(ctx, data):
                                "sat", "seed", "append")}
     scn["src"], scn["aspath"] = inp.get("src", "bin"), inp.get("aspath", True)
     scn["gains"], scn["slow"] = inp.get("gains"), inp.get("slow", False)
+    if "stale" in inp:
+        scn["stale_force"] = inp["stale"]
     scn["ps"] = sorted({1, inp.get("P", 1), inp.get("P_ref", 1)})
     scn["loky"] = [inp["P"]] if inp.get("backend") == "loky" else []
     if not inp.get("append_run"):
